@@ -626,8 +626,8 @@ class Server:
             if mg is not None:
                 os.setgroups(mg)
         self.proc = subprocess.Popen([sys.executable, "-m", "gunicorn", "-c", os.path.join(self.dir, "conf.py"), "c20app:app"],
-                                     cwd=self.dir, env=env, stdout=subprocess.DEVNULL, stderr=subprocess.DEVNULL,
-                                     preexec_fn=pre)
+                                     cwd=self.dir, env=env, stdout=open(os.path.join(self.dir, "stdout.txt"), "wb"),
+                                     stderr=open(os.path.join(self.dir, "stderr.txt"), "wb"), preexec_fn=pre)
         self.table = [self.proc.pid]
         self.masters = [self.proc.pid]
 
@@ -773,11 +773,14 @@ class Server:
             return None
 
     def log_tail(self, n=25):
-        try:
-            with open(self.errorlog) as fh:
-                return fh.read().splitlines()[-n:]
-        except OSError:
-            return []
+        lines = []
+        for f in (os.path.join(self.dir, "stderr.txt"), self.errorlog):
+            try:
+                with open(f, errors="replace") as fh:
+                    lines += fh.read().splitlines()
+            except OSError:
+                pass
+        return lines[-n:]
 
     def stop(self):
         t = {}
